@@ -2,16 +2,16 @@
 from cvsym import checklib as CL
 def _zero(I, a): return 0
 STUBS = [('_ZN11colvarproxy11end_of_stepEv', _zero), ('_ZN14colvarbias_abf11calc_energyE', _zero)]
-FNS = ['h_c03_restraints_moving', 'h_c03_restraints_staged', 'h_c03_extended', 'h_c03_abf', 'h_c03_histogram', 'h_c03_meta']
+FNS = ['h_c03_meta_offgrid', 'h_c03_restraints_moving', 'h_c03_restraints_staged', 'h_c03_extended', 'h_c03_abf', 'h_c03_histogram', 'h_c03_meta']
 def groups(tier):
     b = {'scenario': 'uninterrupted run of steps 0..N that writes its state at step K on the way (text and binary, enumerated) against: fresh proxy and module with the same configuration, state loaded, steps K..N; N = 2..4, every K in the stated set (including 0 and N); arbitrary real coordinates and total forces at every step',
-         'objects': 'harmonic fixed / moving centres with accumulated work / linear; staged moving centres / changing force constant with accumulated work; extended-Lagrangian variable with a harmonic bias (running simulation); ABF / histogram (1 variable, 4 bins, the bin visited at each step enumerated among 2; ABF N = 2 quick, 3 thorough); histogram; metadynamics with explicit hills (useGrids off)'}
+         'objects': 'harmonic fixed / moving centres with accumulated work / linear; staged moving centres / changing force constant with accumulated work; extended-Lagrangian variable with a harmonic bias (running simulation); ABF / histogram (1 variable, 4 bins, the bin visited at each step enumerated among 2; ABF N = 2 quick, 3 thorough); histogram; metadynamics with explicit hills (useGrids off); metadynamics with grids whose last step is an excursion beyond the upper boundary'}
     if tier != 'quick': FNS_ = FNS + ['h_c03_abf_long']
     else: FNS_ = FNS
     return [CL.Group('C03_restart.cpp', [f], setup=['h_c03_setup'], bounds=b, stubs=STUBS, max_paths=300, path_time=280, total_time=1500, ext={'div_zero': 'fork'}, diff=False) for f in FNS_]
 MANIFEST = {
  'level_text': 'Bounded symbolic model checking of the real state writers and readers (colvarmodule::write_state / read_state in text and binary form, get/set_state_params and write/read_state_data of every object involved) inside complete runs through colvarmodule::calc(): with arbitrary real coordinates and total forces at every step, the uninterrupted run and the run stopped at step K, saved, reloaded into a fresh proxy + module and continued are proved to end with equal variable values, bias energies, total energy, atom forces and an equal final state text (word by word; numbers through in-band tokens), which covers the accumulated data (grids, counts, hills, centres, force constants, accumulated work, extended coordinate and velocity); for the text format the state saved immediately after loading is proved equal to the state that was loaded.',
- 'level_note': 'N <= 4 steps, K enumerated; exact-real reading (the 14-digit rounding of the text format is outside: tokens carry the exact value); colvarbias_abf::calc_energy and colvarproxy::end_of_step are stubbed. Outside: eABF/CZAR, metadynamics with grids / well-tempered / multiple walkers, OPES, ABMD, ALB, state files (the stream-level API is used), excursions outside the grids.',
+ 'level_note': 'N <= 4 steps, K enumerated; exact-real reading (the 14-digit rounding of the text format is outside: tokens carry the exact value); colvarbias_abf::calc_energy and colvarproxy::end_of_step are stubbed. Outside: eABF/CZAR, well-tempered / multiple-walker metadynamics, OPES, ABMD, ALB, state files (the stream-level API is used), excursions outside the grids.',
  'technique': 'symbolic execution of LLVM IR through the public API + SMT (z3): two complete symbolic runs compared, state text compared word by word with in-band tokens',
  'design_ref': 'DESIGN.md 5/C03'}
 def run():
